@@ -573,6 +573,16 @@ def userEdit (s : State) (newPos : List V3) (newCell : Option V3) : State :=
   let rows := if newPos.length = s.atoms.rows.length then setPositions s.atoms.rows newPos else s.atoms.rows
   { s with atoms := { s.atoms with rows := rows, cell := newCell.getD s.atoms.cell } }
 
+/-- the same with new momenta as well (`atoms.set_momenta(…)` between two runs of a Hamiltonian driver) -/
+def userEditM (s : State) (newPos newMom : List V3) (newCell : Option V3) : State :=
+  let s1 := userEdit s newPos newCell
+  if newMom.length = s1.atoms.rows.length then
+    { s1 with atoms := { s1.atoms with rows := setMomenta s1.atoms.rows newMom } }
+  else s1
+
+def newRunM (sim : Sim) (s : State) (newPos newMom : List V3) (newCell : Option V3) : State :=
+  validate sim (userEditM s newPos newMom newCell)
+
 /-- the next `run()`: `validate_simulation()` on the atoms as the user left them -/
 def newRun (sim : Sim) (s : State) (newPos : List V3) (newCell : Option V3) : State :=
   validate sim (userEdit s newPos newCell)
